@@ -152,7 +152,7 @@ func inoOf(n virtual.Node) uint64 {
 func runGatedCase(r *ev.Run, cfgIdx int, base vfsh.Config, i int) {
 	cfg := caseConfig(base, i)
 	rng := r.Rand(5, uint64(cfgIdx), uint64(i))
-	kind := []string{"readdir", "readdir", "readdir", "readdir", "readdir", "readdir", "readdir", "lookup", "remove", "rename-onto"}[rng.IntN(10)]
+	kind := []string{"readdir", "readdir", "readdir", "readdir", "readdir", "readdir", "readdir", "lookup", "remove", "rename-onto", "rename-source", "rename-source", "rename-source"}[rng.IntN(13)]
 	r.Case("gated cfg=%d(%s) case=%d kind=%s", cfgIdx, cfg, i, kind)
 	ctx := context.Background()
 	env := vfsh.NewEnv(cfg)
@@ -205,7 +205,7 @@ func runGatedCase(r *ev.Run, cfgIdx int, base vfsh.Config, i int) {
 		layout = append(layout, "other/")
 	}
 	fetcher := &gatedFetcher{reached: make(chan struct{}), gate: make(chan struct{})}
-	if kind != "rename-onto" && rng.IntN(2) == 0 {
+	if kind != "rename-onto" && kind != "rename-source" && rng.IntN(2) == 0 {
 		fetcher.leaf, _ = env.NewLeaf(vfsh.KFIFO, "")
 	}
 	dName := "Dir"
@@ -324,6 +324,32 @@ func runGatedCase(r *ev.Run, cfgIdx int, base vfsh.Config, i int) {
 		}
 		moverIno = inoOf(md)
 	}
+	// rename-source: the entry that is renamed onto Dir lives in src (the
+	// other directory, or the parent itself) and is changed by the driver
+	// while the rename waits for Dir's lock.
+	src := other
+	srcSame := kind == "rename-source" && rng.IntN(2) == 0
+	if srcSame {
+		src = parent
+	}
+	makeEntry := func(d virtual.PrepopulatedDirectory, name string, dir bool) {
+		if dir {
+			var a virtual.Attributes
+			if _, _, st := d.VirtualMkdir(ctx, pcomp(name), &virtual.Attributes{}, vfsh.MaskBasic, &a); st != virtual.StatusOK {
+				panic("gated: mkdir " + name + ": " + vfsh.StatusName(st))
+			}
+			return
+		}
+		leaf, _ := env.NewLeaf(vfsh.KFile, "")
+		if err := d.CreateChildren(map[path.Component]virtual.InitialChild{pcomp(name): virtual.InitialChild{}.FromLeaf(leaf)}, false); err != nil {
+			panic(err)
+		}
+	}
+	if kind == "rename-source" {
+		initialDir := rng.IntN(3) != 0
+		makeEntry(src, mover, initialDir)
+		say("source %s/%s created as %s", map[bool]string{true: "parent", false: "other"}[srcSame], mover, map[bool]string{true: "directory", false: "file"}[initialDir])
+	}
 	go func() {
 		defer close(callDone)
 		idCh <- goroutineID()
@@ -339,6 +365,9 @@ func runGatedCase(r *ev.Run, cfgIdx int, base vfsh.Config, i int) {
 			callStatus = vfsh.StatusName(st)
 		case "rename-onto":
 			_, _, st := other.VirtualRename(ctx, pcomp(mover), parent, pcomp(dName))
+			callStatus = vfsh.StatusName(st)
+		case "rename-source":
+			_, _, st := src.VirtualRename(ctx, pcomp(mover), parent, pcomp(dName))
 			callStatus = vfsh.StatusName(st)
 		}
 	}()
@@ -361,7 +390,7 @@ func runGatedCase(r *ev.Run, cfgIdx int, base vfsh.Config, i int) {
 	var bg sync.WaitGroup
 	newFileAtD := false
 	dNewParent, dNewName := parent, dName
-	if parked {
+	if parked && kind != "rename-source" {
 		detach = []string{"rename-same-dir", "rename-same-dir", "rename-cross-dir", "RemoveAll", "CreateChildren-overwrite", "RemoveAllChildren", "none"}[rng.IntN(7)]
 		if kind != "readdir" {
 			detach = []string{"rename-same-dir", "rename-cross-dir", "RemoveAll", "CreateChildren-overwrite", "none", "none"}[rng.IntN(6)]
@@ -466,6 +495,58 @@ func runGatedCase(r *ev.Run, cfgIdx int, base vfsh.Config, i int) {
 				}
 			}
 		}
+	}
+	// rename-source: change the SOURCE entry while the rename is parked, then
+	// note what the source name refers to: that is what the rename must act
+	// on once it resumes (nothing else changes until the gate opens).
+	type nowEntry struct {
+		exists bool
+		isDir  bool
+		ino    uint64
+	}
+	lookupNow := func(d virtual.PrepopulatedDirectory, name string) nowEntry {
+		c, err := d.LookupChild(pcomp(name))
+		if err != nil {
+			return nowEntry{}
+		}
+		cd, cl := c.GetPair()
+		if cd != nil {
+			return nowEntry{true, true, inoOf(cd)}
+		}
+		return nowEntry{true, false, inoOf(cl)}
+	}
+	var srcNow nowEntry
+	srcMutation := "-"
+	if kind == "rename-source" {
+		if parked {
+			srcMutation = []string{"remove", "recreate", "swap", "keep"}[rng.IntN(4)]
+			switch srcMutation {
+			case "remove":
+				if err := src.Remove(pcomp(mover)); err != nil {
+					panic(err)
+				}
+			case "recreate":
+				if err := src.Remove(pcomp(mover)); err != nil {
+					panic(err)
+				}
+				makeEntry(src, mover, rng.IntN(2) == 0)
+			case "swap":
+				if _, _, st := src.VirtualRename(ctx, pcomp(mover), src, pcomp("away")); st != virtual.StatusOK {
+					panic("gated: rename away: " + vfsh.StatusName(st))
+				}
+				makeEntry(src, "y2", rng.IntN(2) == 0)
+				if _, _, st := src.VirtualRename(ctx, pcomp("y2"), src, pcomp(mover)); st != virtual.StatusOK {
+					panic("gated: rename onto source name: " + vfsh.StatusName(st))
+				}
+			}
+			where := map[bool]string{true: "same-directory", false: "cross-directory"}[srcSame]
+			r.Situation("rename-source-changed-during-backoff:" + srcMutation + ":" + where)
+			if srcMutation != "keep" {
+				r.Situation("rename-source-changed-during-backoff")
+			}
+		}
+		srcNow = lookupNow(src, mover)
+		say("driver: source %s; the name now refers to %+v", srcMutation, srcNow)
 	}
 	opened.Store(true)
 	close(fetcher.gate)
@@ -574,6 +655,58 @@ func runGatedCase(r *ev.Run, cfgIdx int, base vfsh.Config, i int) {
 		default:
 			if callStatus != vfsh.ENOENT {
 				bad("status want=ENOENT got="+callStatus, fmt.Sprintf("%s was moved away or removed while the removal waited for its lock", dName))
+			}
+		}
+	case "rename-source":
+		want := vfsh.OK
+		switch {
+		case !srcNow.exists:
+			want = vfsh.ENOENT
+		case !srcNow.isDir:
+			want = vfsh.EISDIR // a file cannot replace the directory Dir
+		}
+		if callStatus != want {
+			bad("status want="+want+" got="+callStatus, fmt.Sprintf("source changed by %q while the rename waited; the source name refers to %+v", srcMutation, srcNow))
+		}
+		target := lookupNow(parent, dName)
+		after := lookupNow(src, mover)
+		if want == vfsh.OK {
+			if !target.exists || target.ino != srcNow.ino {
+				bad("rename-moved-another-object", fmt.Sprintf("target is %+v, the source name referred to %+v", target, srcNow))
+			}
+			if after.exists {
+				bad("rename-left-the-source-name-behind", fmt.Sprintf("%+v", after))
+			}
+		} else {
+			if !target.exists || target.ino != dIno {
+				bad("failed-rename-changed-the-target", fmt.Sprintf("%+v", target))
+			}
+			if after != srcNow {
+				bad("failed-rename-changed-the-source", fmt.Sprintf("before %+v after %+v", srcNow, after))
+			}
+		}
+		// Listing and lookup of both directories must agree.
+		for _, d := range []virtual.PrepopulatedDirectory{src, parent} {
+			rep := &gatedReporter{limit: 1000}
+			if st := d.VirtualReadDir(ctx, 0, vfsh.MaskLocked, rep); st != virtual.StatusOK {
+				bad("status", "VirtualReadDir after the rename: "+vfsh.StatusName(st))
+			}
+			listed := map[string]int{}
+			for _, e := range rep.entries {
+				listed[e.Name]++
+			}
+			for name, n := range listed {
+				if n > 1 {
+					bad("readdir-entry-reported-twice", name)
+				}
+				if !lookupNow(d, name).exists {
+					bad("listed-entry-cannot-be-looked-up", fmt.Sprintf("%q is listed but lookup says it does not exist", name))
+				}
+			}
+			for _, name := range []string{mover, "away", "y2", dName} {
+				if lookupNow(d, name).exists && listed[name] == 0 {
+					bad("entry-missing-from-listing", fmt.Sprintf("%q can be looked up but is not listed", name))
+				}
 			}
 		}
 	case "rename-onto":
